@@ -376,7 +376,14 @@ func c13InProcess(c *mc.Ctx) {
 		dir := filepath.Join(base, "pkg")
 		os.MkdirAll(dir, 0o777)
 		os.WriteFile(filepath.Join(base, "go.mod"), []byte("module example.com/m\n\ngo 1.23\n"), 0o666)
-		for n, t := range c13Sources(i) {
+		srcs := c13Sources(i)
+		var names []string
+		for n := range srcs {
+			names = append(names, n)
+		}
+		sort.Strings(names) // files are always created in the same order
+		for _, n := range names {
+			t := srcs[n]
 			if n == "user.go" {
 				t = strings.Replace(t, "package p\n", "package "+pkgName[i]+"\n", 1)
 			}
